@@ -157,12 +157,16 @@ def check_history(case):
                 else:
                     return ("rejects.delattr", f"attribute deletion accepted at {where}")
             elif op == "reuse_obj":
-                # the same object under a second name (aliasing): both names then hold it
+                # an object the module already holds, assigned under another name (`m.b = m.a`): it MOVES - an object
+                # has one name (held under both it would be exported twice, as two `b`s)
                 if not spec:
                     continue
                 src = sorted(spec)[rnd.randrange(len(spec))]
                 v = spec[src]
+                held_as = v.name
                 setattr(m, name, v)
+                if held_as != name and spec.get(held_as) is v:
+                    del spec[held_as]
                 spec[name] = v
             elif op == "rename_by_hand":
                 # the object's own `name` field changes; the namespace keys do not
